@@ -211,6 +211,12 @@ def gen_model(rng):
     return {"event": event, "lines": lines, "params": params, "consts": consts, "cartesian": cart, "extras": extras}
 
 
+ABANDONED_TEXT = ("EventType D0 K- pi+ pi+ pi-\nFastCoherentSum::UseCartesian 1\n"
+                  "D0{K*(892)bar0{K-,pi+},rho(770)0{pi+,pi-}} 0 0.5 0.1 0 -1.25 0.1\n"
+                  "D0[D]{K*(892)bar0{K-,pi+},omega(782)0{pi+,pi-}} 2 1.5 0 2 0.75 0\n"
+                  "K(1)(1270)bar-::mass 2 1.272 0\n")
+
+
 def render(model, rng=None, style=None):
     """Option text.  style: dict(crlf, indent, comments, blank) decided by rng when not given."""
     import random  # noqa: PLC0415
